@@ -12,6 +12,9 @@ import (
 
 func Symlink(from, to string) error {
 	if WriteOK("symlink source=%s target=%s", from, to) {
+		if err := verifPoint("symlink", from); err != nil {
+			return err
+		}
 		err := os.Symlink(to, from)
 		if nil != err {
 			return fmt.Errorf("%s making symlink %s", err, from)
@@ -22,6 +25,9 @@ func Symlink(from, to string) error {
 
 func Rename(source, target string) error {
 	if WriteOK("rename %s to %s", source, target) {
+		if err := verifPoint("rename", source); err != nil {
+			return err
+		}
 		return os.Rename(source, target)
 	}
 	return nil
@@ -29,6 +35,9 @@ func Rename(source, target string) error {
 
 func Remove(target string) error {
 	if WriteOK("remove %s", target) {
+		if err := verifPoint("remove", target); err != nil {
+			return err
+		}
 		return os.RemoveAll(target)
 	}
 	return nil
@@ -36,6 +45,9 @@ func Remove(target string) error {
 
 func Mount(source, target, fstype, options string) error {
 	if WriteOK("mount type=%s source=%s target=%s", fstype, source, target) {
+		if err := verifPoint("mount", target); err != nil {
+			return err
+		}
 		var flags uintptr
 		switch fstype {
 		case "bind":
@@ -65,6 +77,9 @@ func Mount(source, target, fstype, options string) error {
 
 func Unmount(mounted string, force bool) error {
 	if WriteOK("umount directory=%s force=%v", mounted, force) {
+		if err := verifPoint("umount", mounted); err != nil {
+			return err
+		}
 		var flags int
 		if force {
 			flags |= syscall.MNT_FORCE
